@@ -83,6 +83,10 @@ class WriteProxy:
     def fileno(self):
         raise OSError("simulated file has no descriptor")
 
+    def read(self, *a):      # numpy's zipfile_factory only treats objects with a `read` attribute as files
+        import io
+        raise io.UnsupportedOperation("not readable")
+
     def tell(self):
         return self.base + self.pos
 
@@ -152,8 +156,7 @@ class WriteProxy:
 
     def tear(self, keep):
         """crash / error: only `keep` bytes of this proxy's data survive"""
-        keep = max(self.os_len if keep < self.os_len else keep, 0)
-        keep = min(keep, len(self.data))
+        keep = min(max(keep, self.os_len), len(self.data))
         self._materialise(keep)
         self.failed = True
 
